@@ -295,4 +295,403 @@ theorem C03_frames_without_id_lose_links (db : Db) (entry : Nat) (lexids : List 
     simp at hx
   · rfl
 
+open WnVerif WnVerif.Props.C01
+
+/-! ### synsets: relations, definitions and examples survive add-then-export -/
+
+/-- in `old ++ rows`, where no old row belongs to lexicon `lexid` and the new rows have pairwise
+distinct ids, the (id, lexicon) look-up of a new row finds that row -/
+theorem find_new_row (old rows : List RSynset) (lexid : Nat) (hold : ∀ o ∈ old, o.lex ≠ lexid)
+    (hnew : ∀ r ∈ rows, r.lex = lexid) (hd : (rows.map (·.id)).Nodup) (r : RSynset) (hr : r ∈ rows) :
+    synsetRowY' (old ++ rows) r.id lexid = some r.rowid := by
+  unfold synsetRowY'
+  rw [List.find?_append]
+  have e1 : old.find? (fun x => x.id == r.id && x.lex == lexid) = none := by
+    rw [List.find?_eq_none]
+    intro o ho
+    have := hold o ho
+    simp [this]
+  rw [e1, Option.none_or]
+  have : rows.find? (fun x => x.id == r.id && x.lex == lexid) = some r := by
+    induction rows with
+    | nil => simp at hr
+    | cons a t ih =>
+      simp only [List.map_cons, List.nodup_cons] at hd
+      rcases List.mem_cons.mp hr with rfl | hr'
+      · simp [hnew r List.mem_cons_self]
+      · have hne : a.id ≠ r.id := fun e => hd.1 (List.mem_map.mpr ⟨r, hr', e.symm⟩)
+        simp only [List.find?_cons]
+        have : (a.id == r.id && a.lex == lexid) = false := by simp [hne]
+        rw [this]
+        exact ih (fun x hx => hnew x (List.mem_cons_of_mem _ hx)) hd.2 hr'
+  rw [this]; rfl
+
+theorem Forall2.map_eq_mem {α β γ} {R : α → β → Prop} (p : β → γ) (q : α → γ) :
+    ∀ {l : List α} {l' : List β}, Forall2 R l l' → (∀ a ∈ l, ∀ b ∈ l', R a b → p b = q a) → l'.map p = l.map q := by
+  intro l l' h
+  induction h with
+  | nil => intro _; rfl
+  | cons h0 _ ih =>
+    intro hpq
+    simp only [List.map_cons]
+    rw [hpq _ List.mem_cons_self _ List.mem_cons_self h0,
+      ih (fun a ha b hb hr => hpq a (List.mem_cons_of_mem _ ha) b (List.mem_cons_of_mem _ hb) hr)]
+
+def synChildrenObs (s : Synset) : String × List (String × String × Option Meta) × List (String × Option String) × List (String × Option String × Option Meta) :=
+  (s.id, s.relations.map docRel, s.definitions.map (fun d => (d.text, d.language)), s.examples.map (fun x => (x.text, x.language, x.md)))
+
+def docSynChildrenObs (s : Synset) : String × List (String × String × Option Meta) × List (String × Option String) × List (String × Option String × Option Meta) :=
+  (s.id, dedupBy id (s.relations.map docRel), s.definitions.map (fun d => (d.text, d.language)),
+   s.examples.map (fun x => (x.text, x.language, mdOrEmpty x.md)))
+
+/-- **C03, synsets with their relations, definitions and examples, end to end**: add a plain lexicon
+whose synset ids are pairwise distinct, export it (any version): the exported synsets are the
+document's, in order, each with exactly its relations (type, target id, metadata; exact duplicates
+once), its definitions (text, language) and its examples (text, language, metadata with the empty
+dictionary for none) in document order -/
+theorem C03_synset_children_round_trip (norm : String → String) (dr : Nat) (db db' : Db) (l : Lexicon) (v11 : Bool)
+    (h : addLexicon norm dr db l = .ok db') (hext : l.ext = none) (hx : ∀ ss ∈ l.synsets, ss.external = false)
+    (hids : (l.synsets.map (·.id)).Nodup)
+    (hfkY : ∀ o ∈ db.synsets, o.lex ∈ db.lexicons.map (·.rowid))
+    (hfkR : ∀ o ∈ db.synrels, o.lex ∈ db.lexicons.map (·.rowid))
+    (hfkD : ∀ o ∈ db.defs, o.lex ∈ db.lexicons.map (·.rowid))
+    (hfkX : ∀ o ∈ db.synexs, o.lex ∈ db.lexicons.map (·.rowid))
+    (hnY : (db.synsets.map (·.rowid)).Nodup) (hnI : (db.ilis.map (·.rowid)).Nodup) (hnT : (db.reltypes.map (·.1)).Nodup) :
+    (exportSynsets db' [nextId (db.lexicons.map (·.rowid))] v11).map synChildrenObs = l.synsets.map docSynChildrenObs := by
+  obtain ⟨t⟩ := addLexicon_split norm dr db db' l h
+  obtain ⟨_, _, hlexid0, hextid⟩ := insertLexicon_frame _ _ _ _ _ t.hlex
+  have hlexid : t.lexid = nextId (db.lexicons.map (·.rowid)) := hlexid0
+  obtain ⟨_, g2, _⟩ := insertLexicon_frame2 _ _ _ _ _ t.hlex
+  have k1 := insertLexicon_keeps_rels _ _ _ _ _ t.hlex
+  have hlid : ∀ i, t.ctx.lid i = t.lexid := by
+    intro i
+    unfold Ctx.lid AddTrace.ctx
+    simp [hextid hext]
+  have hloc : localSynsets l = l.synsets := by
+    unfold localSynsets
+    rw [List.filter_eq_self]
+    intro ss hss
+    simp [hx ss hss]
+  -- the synsets table
+  obtain ⟨_, hY, _⟩ := addLexicon_synrel_table t
+  have hd1i : t.d1.ilis = db.ilis := by
+    have h := t.hlex
+    unfold insertLexicon at h
+    simp only [bind, Except.bind, pure, Except.pure] at h
+    split at h
+    · simp [throw, throwThe, MonadExcept.throw] at h
+    · split at h
+      · split at h
+        · simp at h
+        · simp only [Except.ok.injEq, Prod.mk.injEq] at h
+          obtain ⟨h, _, _⟩ := h; rw [← h]; rfl
+      · simp only [Except.ok.injEq, Prod.mk.injEq] at h
+        obtain ⟨h, _, _⟩ := h; rw [← h]; rfl
+  obtain ⟨rows, hrowsE, hrows⟩ := insertSynsets_rows t.d1 t.d2 l _ t.hsyn (by rw [hd1i]; exact hnI)
+  rw [hloc] at hrows
+  have hsyn : db'.synsets = db.synsets ++ rows := by rw [hY, hrowsE, g2]; rfl
+  have hold : ∀ o ∈ db.synsets, o.lex ≠ t.lexid := by
+    intro o ho e
+    have := hfkY o ho
+    rw [e, hlexid] at this
+    exact nextId_not_mem _ this
+  have hnewlex : ∀ r ∈ rows, r.lex = t.lexid := Forall2.forall_right (fun _ _ hr => hr.2.1) hrows
+  have hrid : rows.map (·.id) = l.synsets.map (·.id) :=
+    Forall2.map_eq (fun r : RSynset => r.id) (fun ss : Synset => ss.id) (fun _ _ hr => hr.1) hrows
+  have hdist : (rows.map (·.id)).Nodup := by rw [hrid]; exact hids
+  -- what `synsets()` of the new lexicon lists
+  have hfind : findSynsets db' none [] none none [t.lexid] false true = rows.map (synsetData db') := by
+    unfold findSynsets
+    simp only [List.isEmpty_nil, if_true]
+    congr 1
+    rw [hsyn, List.filter_append]
+    have e1 : db.synsets.filter (fun ss => true && true && true && inLexOrAll [t.lexid] ss.lex) = [] := by
+      rw [List.filter_eq_nil_iff]
+      intro o ho
+      simp [inLexOrAll, hold o ho]
+    have e2 : rows.filter (fun ss => true && true && true && inLexOrAll [t.lexid] ss.lex) = rows := by
+      rw [List.filter_eq_self]
+      intro r hr
+      simp [inLexOrAll, hnewlex r hr]
+    simpa using (by rw [e1, e2, List.nil_append] :
+      db.synsets.filter (fun ss => true && true && true && inLexOrAll [t.lexid] ss.lex) ++
+        rows.filter (fun ss => true && true && true && inLexOrAll [t.lexid] ss.lex) = rows)
+  rw [← hlexid]
+  unfold exportSynsets
+  rw [hfind, List.map_map, List.map_map]
+  refine Forall2.map_eq_mem _ docSynChildrenObs hrows ?_
+  intro ss hss r hrmem hr
+  have hx0 : synsetRow db' ss.id (t.ctx.lid ss.id) = some r.rowid := by
+    rw [hlid, ← hr.1]
+    show synsetRowY' db'.synsets r.id t.lexid = some r.rowid
+    rw [hsyn]
+    exact find_new_row db.synsets rows t.lexid hold hnewlex hdist r hrmem
+  have hrel := C01_synset_relations_end_to_end t hfkR hnY hnT ["*"] rfl ss.id r.rowid hx0
+  have hdef := C01_definitions_end_to_end t hfkD hnY ss.id r.rowid hx0
+  have hex := C01_synset_examples_end_to_end t hfkX hnY ss.id r.rowid hx0
+  have hp1 : (synRelPairs l).filter (fun p => p.1.id == ss.id && t.ctx.lid p.2.target == t.lexid) = ss.relations.map (fun x => (ss, x)) := by
+    have : (synRelPairs l).filter (fun p => p.1.id == ss.id && t.ctx.lid p.2.target == t.lexid) =
+        (synRelPairs l).filter (fun p => p.1.id == ss.id) := by
+      apply List.filter_congr
+      intro p _
+      simp [hlid]
+    rw [this]
+    exact pairs_filter_of_nodup (fun s : Synset => s.id) (fun s => s.relations) l.synsets hids ss hss
+  have hp2 : (defPairs l).filter (fun p => p.1.id == ss.id) = ss.definitions.map (fun x => (ss, x)) :=
+    pairs_filter_of_nodup (fun s : Synset => s.id) (fun s => s.definitions) l.synsets hids ss hss
+  have hp3 : (synExPairs l).filter (fun p => p.1.id == ss.id) = ss.examples.map (fun x => (ss, x)) :=
+    pairs_filter_of_nodup (fun s : Synset => s.id) (fun s => s.examples) l.synsets hids ss hss
+  rw [hp1, List.map_map] at hrel
+  rw [hp2, List.map_map] at hdef
+  rw [hp3, List.map_map] at hex
+  simp only [Function.comp, synChildrenObs, docSynChildrenObs, synsetData, List.map_map]
+  refine Prod.ext hr.1 (Prod.ext ?_ (Prod.ext ?_ ?_))
+  · exact hrel
+  · exact hdef
+  · have := congrArg (List.map (fun (o : String × Option String × Option Meta) => (o.1, o.2.1, mdOrEmpty o.2.2))) hex
+    rw [List.map_map, List.map_map] at this
+    exact this
+
+/-! ### senses: relations, examples and counts survive add-then-export -/
+
+theorem find_new_sense_row (old rows : List RSense) (lexid : Nat) (hold : ∀ o ∈ old, o.lex ≠ lexid)
+    (hnew : ∀ r ∈ rows, r.lex = lexid) (hd : (rows.map (·.id)).Nodup) (r : RSense) (hr : r ∈ rows) :
+    senseRowS' (old ++ rows) r.id lexid = some r.rowid := by
+  unfold senseRowS'
+  rw [List.find?_append]
+  have e1 : old.find? (fun x => x.id == r.id && x.lex == lexid) = none := by
+    rw [List.find?_eq_none]
+    intro o ho
+    have := hold o ho
+    simp [this]
+  rw [e1, Option.none_or]
+  have : rows.find? (fun x => x.id == r.id && x.lex == lexid) = some r := by
+    induction rows with
+    | nil => simp at hr
+    | cons a t ih =>
+      simp only [List.map_cons, List.nodup_cons] at hd
+      rcases List.mem_cons.mp hr with rfl | hr'
+      · simp [hnew r List.mem_cons_self]
+      · have hne : a.id ≠ r.id := fun e => hd.1 (List.mem_map.mpr ⟨r, hr', e.symm⟩)
+        simp only [List.find?_cons]
+        have : (a.id == r.id && a.lex == lexid) = false := by simp [hne]
+        rw [this]
+        exact ih (fun x hx => hnew x (List.mem_cons_of_mem _ hx)) hd.2 hr'
+  rw [this]; rfl
+
+/-- all `<Sense>` elements of the document, in order -/
+def allSenses (l : Lexicon) : List Sense := l.entries.flatMap (·.senses)
+
+theorem allSenseRels_eq (l : Lexicon) :
+    allSenseRels l = ((allSenses l).flatMap (fun s => s.relations.map (fun r => (s, r)))).map (fun p => (p.1.id, p.2)) := by
+  unfold allSenseRels allSenses
+  rw [List.flatMap_assoc, List.map_flatMap]
+  congr 1
+  funext e
+  rw [List.map_flatMap]
+  congr 1
+  funext s
+  rw [List.map_map]
+  rfl
+
+theorem senseExPairs_eq (l : Lexicon) : senseExPairs l = (allSenses l).flatMap (fun s => s.examples.map (fun x => (s, x))) := by
+  unfold senseExPairs allSenses
+  rw [List.flatMap_assoc]
+
+theorem countPairs_eq (l : Lexicon) : countPairs l = (allSenses l).flatMap (fun s => s.counts.map (fun x => (s, x))) := by
+  unfold countPairs allSenses
+  rw [List.flatMap_assoc]
+
+/-- the relations listed under one sense id, when sense ids are pairwise distinct -/
+theorem allSenseRels_filter (l : Lexicon) (hn : ((allSenses l).map (·.id)).Nodup) (s : Sense) (hs : s ∈ allSenses l) :
+    (allSenseRels l).filter (fun p => p.1 == s.id) = s.relations.map (fun r => (s.id, r)) := by
+  rw [allSenseRels_eq, List.filter_map]
+  have := pairs_filter_of_nodup (fun x : Sense => x.id) (fun x => x.relations) (allSenses l) hn s hs
+  have e : (fun p : String × Relation => p.1 == s.id) ∘ (fun p : Sense × Relation => (p.1.id, p.2)) = fun p => p.1.id == s.id := rfl
+  rw [e, this, List.map_map]
+  rfl
+
+def senseChildrenObs (s : Sense) : String × String × List (String × String × Option Meta) × List (String × Option String × Option Meta) × List (Int × Option Meta) :=
+  (s.id, s.synset, s.relations.map docRel, s.examples.map (fun x => (x.text, x.language, x.md)), s.counts.map (fun c => (c.value, c.md)))
+
+def docSenseChildrenObs (l : Lexicon) (s : Sense) : String × String × List (String × String × Option Meta) × List (String × Option String × Option Meta) × List (Int × Option Meta) :=
+  (s.id, s.synset,
+   dedupBy id ((s.relations.filter (fun r => ((allSenses l).map (·.id)).contains r.target)).map docRel) ++
+   dedupBy id ((s.relations.filter (fun r => !((allSenses l).map (·.id)).contains r.target && (l.synsets.map (·.id)).contains r.target)).map docRel),
+   s.examples.map (fun x => (x.text, x.language, mdOrEmpty x.md)), s.counts.map (fun c => (c.value, mdOrEmpty c.md)))
+
+theorem senseIds_eq (l : Lexicon) : l.entries.flatMap (fun e => e.senses.map (·.id)) = (allSenses l).map (·.id) := by
+  unfold allSenses
+  rw [List.map_flatMap]
+
+/-- what the export writes for one stored sense of the new lexicon -/
+theorem export_sense_children {norm : String → String} {dr : Nat} {db db' : Db} {l : Lexicon}
+    (t : AddTrace norm dr db db' l) (hlid : ∀ i, t.ctx.lid i = t.lexid)
+    (hfkR : ∀ o ∈ db.senserels, o.lex ∈ db.lexicons.map (·.rowid))
+    (hfkR2 : ∀ o ∈ db.sensesynrels, o.lex ∈ db.lexicons.map (·.rowid))
+    (hfkS : ∀ o ∈ db.senses, o.lex ∈ db.lexicons.map (·.rowid))
+    (hfkX : ∀ o ∈ db.sensexs, o.lex ∈ db.lexicons.map (·.rowid))
+    (hfkC : ∀ o ∈ db.counts, o.lex ∈ db.lexicons.map (·.rowid))
+    (hnS : (db.senses.map (·.rowid)).Nodup) (hnE : (db.entries.map (·.rowid)).Nodup)
+    (hnY : (db.synsets.map (·.rowid)).Nodup) (hnT : (db.reltypes.map (·.1)).Nodup)
+    (hsids : ((allSenses l).map (·.id)).Nodup)
+    (s : Sense) (hs : s ∈ allSenses l) (x0 : Nat) (hx0 : senseRow db' s.id t.lexid = some x0) :
+    (exportSenseRelations db' x0 [t.lexid]).map docRel =
+      dedupBy id ((s.relations.filter (fun r => ((allSenses l).map (·.id)).contains r.target)).map docRel) ++
+      dedupBy id ((s.relations.filter (fun r => !((allSenses l).map (·.id)).contains r.target && (l.synsets.map (·.id)).contains r.target)).map docRel) ∧
+    (senseExamples db' x0 [t.lexid]).map (fun x => (x.text, x.language, x.md)) = s.examples.map (fun x => (x.text, x.language, x.md)) ∧
+    (senseCounts db' x0 [t.lexid]).map (fun c => (c.value, c.md)) = s.counts.map (fun c => (c.value, c.md)) := by
+  have hx0' : senseRow db' s.id (t.ctx.lid s.id) = some x0 := by rw [hlid]; exact hx0
+  have h1 := C01_sense_relations_end_to_end t hfkR hfkS hnS hnE hnY hnT ["*"] rfl s.id x0 hx0'
+  have h2 := C01_sense_synset_relations_end_to_end t hfkR2 hnS hnY hnT ["*"] rfl s.id x0 hx0'
+  have h3 := C01_sense_examples_end_to_end t hfkX hnS s.id x0 hx0'
+  have h4 := C01_counts_end_to_end t hfkC hnS s.id x0 hx0'
+  have hall := allSenseRels_filter l hsids s hs
+  refine ⟨?_, ?_, ?_⟩
+  · unfold exportSenseRelations
+    rw [List.map_append, List.map_map, List.map_map]
+    have e1 : (senseRelPairs l).filter (fun p => p.1 == s.id && t.ctx.lid p.2.target == t.lexid) =
+        (s.relations.filter (fun r => ((allSenses l).map (·.id)).contains r.target)).map (fun r => (s.id, r)) := by
+      unfold senseRelPairs
+      rw [List.filter_filter, senseIds_eq]
+      have : (allSenseRels l).filter (fun p => (p.1 == s.id && t.ctx.lid p.2.target == t.lexid) && ((allSenses l).map (·.id)).contains p.2.target) =
+          ((allSenseRels l).filter (fun p => p.1 == s.id)).filter (fun p => ((allSenses l).map (·.id)).contains p.2.target) := by
+        rw [List.filter_filter]
+        apply List.filter_congr
+        intro p _
+        simp [hlid, Bool.and_comm]
+      rw [this, hall, List.filter_map]
+      rfl
+    have e2 : (senseSynRelPairs l).filter (fun p => p.1 == s.id && t.ctx.lid p.2.target == t.lexid) =
+        (s.relations.filter (fun r => !((allSenses l).map (·.id)).contains r.target && (l.synsets.map (·.id)).contains r.target)).map (fun r => (s.id, r)) := by
+      unfold senseSynRelPairs
+      rw [List.filter_filter, senseIds_eq]
+      have : (allSenseRels l).filter (fun p => (p.1 == s.id && t.ctx.lid p.2.target == t.lexid) &&
+            (!((allSenses l).map (·.id)).contains p.2.target && (l.synsets.map (·.id)).contains p.2.target)) =
+          ((allSenseRels l).filter (fun p => p.1 == s.id)).filter (fun p => !((allSenses l).map (·.id)).contains p.2.target && (l.synsets.map (·.id)).contains p.2.target) := by
+        rw [List.filter_filter]
+        apply List.filter_congr
+        intro p _
+        simp [hlid, Bool.and_comm]
+      rw [this, hall, List.filter_map]
+      rfl
+    rw [e1, List.map_map] at h1
+    rw [e2, List.map_map] at h2
+    show List.map obsSenseRel (senseRelations db' x0 ["*"] [t.lexid]) ++ List.map obsSynRel (senseSynsetRelations db' x0 ["*"] [t.lexid]) = _
+    rw [h1, h2]
+    rfl
+  · rw [h3, senseExPairs_eq, pairs_filter_of_nodup (fun x : Sense => x.id) (fun x => x.examples) (allSenses l) hsids s hs, List.map_map]
+    rfl
+  · rw [h4, countPairs_eq, pairs_filter_of_nodup (fun x : Sense => x.id) (fun x => x.counts) (allSenses l) hsids s hs, List.map_map]
+    rfl
+
+theorem zipIdx_map_fst {α} : ∀ (L : List α) (n : Nat), (L.zipIdx n).map (·.1) = L := by
+  intro L
+  induction L with
+  | nil => intro n; rfl
+  | cons a L ih => intro n; simp only [List.zipIdx_cons, List.map_cons, ih]
+
+theorem flatMap_congr_mem {α β} (f g : α → List β) : ∀ (l : List α), (∀ a ∈ l, f a = g a) → l.flatMap f = l.flatMap g := by
+  intro l
+  induction l with
+  | nil => intro _; rfl
+  | cons a t ih =>
+    intro h
+    simp only [List.flatMap_cons]
+    rw [h a List.mem_cons_self, ih (fun x hx => h x (List.mem_cons_of_mem _ hx))]
+
+theorem sensePairs_ids (l : Lexicon) (hxs : ∀ s ∈ allSenses l, s.external = false) :
+    (sensePairs l).map (fun p => p.2.1.id) = (allSenses l).map (·.id) := by
+  unfold sensePairs allSenses
+  rw [List.map_flatMap, List.map_flatMap]
+  apply flatMap_congr_mem
+  intro e he
+  have hloc : localSenses e = e.senses := by
+    unfold localSenses
+    rw [List.filter_eq_self]
+    intro s hs
+    have := hxs s (List.mem_flatMap.mpr ⟨e, he, hs⟩)
+    simp [this]
+  rw [List.map_map, hloc]
+  have : ((fun (p : Entry × (Sense × Nat)) => p.2.1.id) ∘ fun si => (e, si)) = (fun s : Sense => s.id) ∘ (fun si : Sense × Nat => si.1) := rfl
+  rw [this, ← List.map_map, zipIdx_map_fst]
+
+/-- **C03, senses with their relations, examples and counts, end to end**: add a plain lexicon whose
+entry ids and sense ids are pairwise distinct, export it (any version): every exported entry lists
+exactly its senses, in order, each with its id, its synset id, its relations (sense→sense relations
+first, then sense→synset relations, as the export writes them; type, target id, metadata; exact
+duplicates once), its examples and its counts -/
+theorem C03_sense_children_round_trip (norm : String → String) (dr : Nat) (db db' : Db) (l : Lexicon) (v11 : Bool)
+    (h : addLexicon norm dr db l = .ok db') (hext : l.ext = none) (hx : ∀ e ∈ l.entries, e.external = false)
+    (hxs : ∀ s ∈ allSenses l, s.external = false)
+    (hids : (l.entries.map (·.id)).Nodup) (hsids : ((allSenses l).map (·.id)).Nodup)
+    (hfkE : ∀ o ∈ db.entries, o.lex ∈ db.lexicons.map (·.rowid))
+    (hfkF : ∀ f ∈ db.forms, f.entry ∈ db.entries.map (·.rowid))
+    (hfkS : ∀ o ∈ db.senses, o.lex ∈ db.lexicons.map (·.rowid))
+    (hfkR : ∀ o ∈ db.senserels, o.lex ∈ db.lexicons.map (·.rowid))
+    (hfkR2 : ∀ o ∈ db.sensesynrels, o.lex ∈ db.lexicons.map (·.rowid))
+    (hfkX : ∀ o ∈ db.sensexs, o.lex ∈ db.lexicons.map (·.rowid))
+    (hfkC : ∀ o ∈ db.counts, o.lex ∈ db.lexicons.map (·.rowid))
+    (hnS : (db.senses.map (·.rowid)).Nodup) (hnE : (db.entries.map (·.rowid)).Nodup)
+    (hnY : (db.synsets.map (·.rowid)).Nodup) (hnT : (db.reltypes.map (·.1)).Nodup) :
+    (exportEntries db' [nextId (db.lexicons.map (·.rowid))] v11).map (fun e => (e.id, e.senses.map senseChildrenObs)) =
+      l.entries.map (fun e => (e.id, e.senses.map (docSenseChildrenObs l))) := by
+  obtain ⟨c, rows, chunks, hc1, hc2, hE, hR, hlen, hfind, hER⟩ := words_listing norm dr db db' l h hext hx hfkE hfkF
+  obtain ⟨t⟩ := addLexicon_split norm dr db db' l h
+  obtain ⟨_, _, hlexid0, hextid⟩ := insertLexicon_frame _ _ _ _ _ t.hlex
+  have hlexid : t.lexid = nextId (db.lexicons.map (·.rowid)) := hlexid0
+  have hct : c.lexid = t.lexid := by rw [hc1, hlexid]
+  have hlid : ∀ i, t.ctx.lid i = t.lexid := by
+    intro i
+    unfold Ctx.lid AddTrace.ctx
+    simp [hextid hext]
+  rw [← hc1, hct]
+  rw [hct] at hfind hER
+  unfold exportEntries
+  rw [hfind, List.map_map, List.map_map]
+  apply List.ext_getElem
+  · simp [hR.len, hlen]
+  · intro i h1 h2
+    simp only [List.getElem_map, List.getElem_zip, Function.comp, wordOf]
+    have hi0 : i < l.entries.length := by simpa using h2
+    have hi1 : i < rows.length := by rw [hR.len]; exact hi0
+    obtain ⟨s1, _⟩ := hR.spec i hi0 hi1
+    have he : l.entries[i] ∈ l.entries := List.getElem_mem hi0
+    have her : entryRow db' (l.entries[i]).id (t.ctx.lid (l.entries[i]).id) = some (rows[i]).rowid := by
+      rw [hlid]
+      have := hER i hi0 hi1
+      unfold entryRow
+      rw [hE]
+      exact this
+    obtain ⟨srows, hsrows, hsnew, hsold, hsids', hF⟩ := entry_senses_listing t hfkS hnE hnY hids (l.entries[i]) he _ her
+    have hloc : localSenses (l.entries[i]) = (l.entries[i]).senses := by
+      unfold localSenses
+      rw [List.filter_eq_self]
+      intro s hs
+      have := hxs s (List.mem_flatMap.mpr ⟨_, he, hs⟩)
+      simp [this]
+    rw [hloc] at hF
+    have hsd : (srows.map (·.id)).Nodup := by rw [hsids', sensePairs_ids l hxs]; exact hsids
+    refine Prod.ext s1 ?_
+    simp only
+    unfold exportSenses
+    rw [List.map_map]
+    refine Forall2.map_eq_mem _ (docSenseChildrenObs l) hF ?_
+    intro s hs d _ ⟨d1, d2, r, hr, hrr, hri⟩
+    have hsall : s ∈ allSenses l := List.mem_flatMap.mpr ⟨_, he, hs⟩
+    have hx0 : senseRow db' s.id t.lexid = some d.rowid := by
+      rw [← d1, ← hri, ← hrr]
+      show senseRowS' db'.senses r.id t.lexid = some r.rowid
+      rw [hsrows]
+      exact find_new_sense_row db.senses srows t.lexid hsold hsnew hsd r hr
+    obtain ⟨q1, q2, q3⟩ := export_sense_children t hlid hfkR hfkR2 hfkS hfkX hfkC hnS hnE hnY hnT hsids s hsall d.rowid hx0
+    simp only [Function.comp, senseChildrenObs, docSenseChildrenObs, List.map_map]
+    refine Prod.ext d1 (Prod.ext d2 (Prod.ext q1 (Prod.ext ?_ ?_)))
+    · have := congrArg (List.map (fun (o : String × Option String × Option Meta) => (o.1, o.2.1, mdOrEmpty o.2.2))) q2
+      rw [List.map_map, List.map_map] at this
+      exact this
+    · have := congrArg (List.map (fun (o : Int × Option Meta) => (o.1, mdOrEmpty o.2))) q3
+      rw [List.map_map, List.map_map] at this
+      exact this
+
 end WnVerif.Props.C03
